@@ -57,6 +57,7 @@ type World struct {
 	rets   map[retKey]ISet
 	rolesCache map[string]*ssa.Function
 	encCache   map[*ssa.Function]*encInfo
+	lenEncCache map[*ssa.Function]*lenEncInfo
 	decCache   map[*ssa.Function]*decTab
 	wCache     map[*ssa.Function]*writerInfo
 	dispCache  map[string]*dispatch
